@@ -12,12 +12,13 @@ mod c09;
 mod c10;
 mod c25;
 mod c28;
+mod pool;
 
 use report::Report;
 use serde_json::Value;
 
 fn scenarios() -> Vec<(&'static str, &'static str)> {
-    vec![("c07.raw", "C07"), ("c08.values", "C08"), ("c09.seq", "C09"), ("c10.sched", "C10"), ("c25.local", "C25"), ("c28.helpers", "C28")]
+    vec![("c07.raw", "C07"), ("c08.values", "C08"), ("c09.seq", "C09"), ("c10.sched", "C10"), ("c25.local", "C25"), ("c28.helpers", "C28"), ("pool.c01", "C01"), ("pool.c02", "C02"), ("pool.c05", "C05"), ("pool.c11", "C11"), ("pool.c12", "C12"), ("pool.c13", "C13")]
 }
 
 fn run_scenario(name: &str, tier: &str, rep: &mut Report) -> bool {
@@ -28,6 +29,7 @@ fn run_scenario(name: &str, tier: &str, rep: &mut Report) -> bool {
         "c10.sched" => c10::run(tier, rep, "C10"),
         "c25.local" => c25::run(tier, rep),
         "c28.helpers" => c28::run(tier, rep),
+        n if n.starts_with("pool.") => return pool::run(n, tier, rep),
         _ => return false,
     }
     true
@@ -41,6 +43,7 @@ fn replay_scenario(name: &str, v: &Value, em: &mut runner::Emitter) -> bool {
         "c10.sched" => c10::replay(v, em),
         "c25.local" => c25::replay(v, em),
         "c28.helpers" => c28::replay(v, em),
+        n if n.starts_with("pool.") => pool::replay(v, em),
         _ => false,
     }
 }
@@ -77,6 +80,21 @@ fn main() {
                 rep.machinery_errors.len(),
                 rep.exhaustive
             );
+        }
+        Some("benchpool") => {
+            let text = std::fs::read_to_string(&args[2]).expect("read");
+            let v: Value = serde_json::from_str(&text).expect("json");
+            let r = v.get("replay").unwrap_or(&v).clone();
+            let c = pool::Cfg::from_json(&r["config"]).unwrap();
+            let h: Vec<pool::Op> = r["history"].as_array().unwrap().iter().filter_map(pool::Op::from_json).collect();
+            let res = runner::run_one(&runner::RunCfg::default(), |em| {
+                let t = std::time::Instant::now();
+                for _ in 0..50 {
+                    let _ = pool::run_history(&c, &h, None);
+                }
+                em.emit(serde_json::json!({"t":"bench","ms_per_history": t.elapsed().as_secs_f64() * 1000.0 / 50.0}));
+            });
+            println!("{:?} {:?}", res.exit, res.records);
         }
         Some("bench") => {
             let n: usize = args.get(2).and_then(|s| s.parse().ok()).unwrap_or(2000);
